@@ -26,6 +26,7 @@ RULE = (
     "on the original, the untouched side being compared after every step; plus object-level "
     "copies and arithmetic.  Non-trivial when the history changed the edited side; distinct by "
     "(model hash, copy kind, history hash)."
+    " The solver tolerances of the copy are compared with the original's (models with non-default tolerance in 40 % of the cases)."  # third-session additions
 )
 ASSUMPTIONS = [
     "solver *solution* state (primal values, status, basis) is not part of the compared state",
